@@ -171,10 +171,11 @@ static int do_life(unsigned seed, int rounds) {
             tg.run_and_wait([&] { bind_here(child); });
             for (int round = 0; round < 2; ++round) {
                 std::atomic<int> started{0};
-                tg.run([&] { started = 1; tbb::parallel_for(0, 200000, [&](int) { iters++; for (volatile int k = 0; k < 50; ++k) {} }, child); });
+                // the body is run by the thread that waits for it (a task that is only spawned may stay unstolen until its owner waits: the main thread must not spin for it)
+                std::thread runner([&] { tg.run_and_wait([&] { started = 1; tbb::parallel_for(0, 200000, [&](int) { iters++; for (volatile int k = 0; k < 50; ++k) {} }, child); }); });   // the wait resets tg's context
                 while (!started.load()) std::this_thread::yield();
                 tg.cancel();
-                tg.wait();                                                        // resets tg's context
+                runner.join();
                 if (!child.is_group_execution_cancelled()) missed++;
                 child.reset();
             }
